@@ -59,6 +59,97 @@ func msgLabel(o Op) (term, name string) {
 	return "LCtxCancel", "?"
 }
 
+// closeTask describes one asynchronous closeSubscription that ran to its end.
+type closeTask struct {
+	DoneIdx   int
+	ID        string
+	TaskGen   int  // generation whose computation spawned it (-1 unknown)
+	ClosedGen int  // generation it stopped and logged Unsubscribe for (-1: it found nothing to close)
+	Stale     bool // it closed a generation although no pending close had been spawned by that generation
+}
+
+// closeTasks matches every finished asynchronous close with one of the pending spawns of the same id.
+// The goroutine itself only knows the id; the spawn is chosen so that the history is explained if it can
+// be: a close that stopped generation g is matched with a spawn by g when there is one.
+func closeTasks(evs []Event) []closeTask {
+	type task struct {
+		id  string
+		gen int
+	}
+	var pending []task
+	cur := map[string]int{}
+	locked := map[int64]bool{}
+	closed := map[int64]int{}
+	var out []closeTask
+	for i, e := range evs {
+		switch e.Kind {
+		case "log":
+			if !e.Sub {
+				if locked[e.G] {
+					if g, ok := cur[e.ID]; ok {
+						closed[e.G] = g
+					}
+				}
+				delete(cur, e.ID)
+			}
+		case "hook":
+			switch e.Point {
+			case "conn.handleSubscribe.accept", "conn.handleMutate.accept":
+				cur[e.ID] = e.Gen
+			case "conn.closeSubscriptions.done":
+				cur = map[string]int{}
+			case "conn.spawnClose":
+				pending = append(pending, task{e.ID, e.Gen})
+			case "conn.closeSubscription.locked":
+				if !e.Reader {
+					locked[e.G] = true
+					closed[e.G] = -1
+				}
+			case "conn.closeSubscription.done":
+				if e.Reader {
+					break
+				}
+				ct := closeTask{DoneIdx: i, ID: e.ID, TaskGen: -1, ClosedGen: -1}
+				if locked[e.G] {
+					ct.ClosedGen = closed[e.G]
+				}
+				delete(locked, e.G)
+				pick := -1
+				for k, tk := range pending {
+					if tk.id != e.ID {
+						continue
+					}
+					if ct.ClosedGen >= 0 && tk.gen == ct.ClosedGen {
+						pick = k
+						break
+					}
+					if ct.ClosedGen < 0 {
+						if g, ok := cur[e.ID]; !ok || g != tk.gen {
+							pick = k
+							break
+						}
+					}
+				}
+				if pick < 0 {
+					for k, tk := range pending {
+						if tk.id == e.ID {
+							pick = k
+							break
+						}
+					}
+					ct.Stale = ct.ClosedGen >= 0
+				}
+				if pick >= 0 {
+					ct.TaskGen = pending[pick].gen
+					pending = append(pending[:pick:pick], pending[pick+1:]...)
+				}
+				out = append(out, ct)
+			}
+		}
+	}
+	return out
+}
+
 var typeCode = map[string]int{"update": 0, "result": 1, "error": 2, "echo": 3}
 
 // BuildTrace turns the event log into the label sequence and the observations the model must predict.
@@ -75,8 +166,10 @@ func BuildTrace(res *Result) *Trace {
 	var cur *Op
 	done := true
 	lastReadErr := ""
-	type task struct{ id string; gen int }
-	var tasks []task
+	cts := map[int]closeTask{}
+	for _, ct := range closeTasks(res.Events) {
+		cts[ct.DoneIdx] = ct
+	}
 	emitMsg := func() {
 		if cur != nil && !done {
 			term, name := msgLabel(*cur)
@@ -114,7 +207,7 @@ func BuildTrace(res *Result) *Trace {
 		}
 		emit(fmt.Sprintf("LRun %d %s", gen, o), name, "(Some "+vh.CoqJSON(e.Previous)+")")
 	}
-	for _, e := range res.Events {
+	for evIdx, e := range res.Events {
 		switch e.Kind {
 		case "read":
 			emitMsg()
@@ -135,20 +228,11 @@ func BuildTrace(res *Result) *Trace {
 				if e.Reader {
 					emitMsg()
 				}
-			case "conn.spawnClose":
-				tasks = append(tasks, task{e.ID, e.Gen})
 			case "conn.closeSubscription.done":
 				if e.Reader {
 					emitMsg()
 				} else {
-					gen := 999
-					for i, tk := range tasks {
-						if tk.id == e.ID {
-							gen = tk.gen
-							tasks = append(tasks[:i:i], tasks[i+1:]...)
-							break
-						}
-					}
+					gen := cts[evIdx].TaskGen
 					if gen < 0 {
 						gen = 999
 					}
